@@ -365,4 +365,6 @@ Proof.
   - apply (evict_result s space (fun _ => true) false HI). right. reflexivity.
   - destruct HI as [HC HT]. split; [apply (core_irrel s _ _ _ HC)|exact HT].
   - exact HI.
+  - fold (handle_sub_mid c s sid victim space pats). rewrite (proj1 (mid_state c s sid victim space pats HI)).
+    apply inv_pool_remove. apply inv_mid_pre. exact HI.
 Qed.
